@@ -1,7 +1,7 @@
 /* C11.set.<NAME>.membership : for every byte value, the real bit_at() on the real (compiler-computed) set
  * answers exactly the Standard's definition of that percent-encode set.  Loop-free, whole byte domain. */
 void harness(void) {
-  uint8_t c;  /* unconstrained: all 256 values */
+  NONDET(uint8_t, c);
   _Bool in_set = bit_at(SETNAME, c);
   __CPROVER_assert(in_set == (SPECSET(c) ? 1 : 0), "postcondition: byte is in the encode set exactly when the Standard says so");
   CANARY_POINT;
